@@ -2,7 +2,10 @@ module verif.local/harness
 
 go 1.18
 
-require github.com/jig/lisp v0.0.0
+require (
+	github.com/jig/lisp v0.0.0
+	dotless v0.0.0
+)
 
 require (
 	github.com/chzyer/readline v1.5.1 // indirect
@@ -12,3 +15,5 @@ require (
 )
 
 replace github.com/jig/lisp => /repo
+
+replace dotless => ./dotless
